@@ -54,6 +54,9 @@ def mk_node(cx, cls: str, name: str) -> SObj:
         n.fields["node"] = None
         n.fields["min"] = cx.int(name + "_min", lo=0)
         n.fields["_max"] = None
+        # the contracts cover repetitions with literal bounds; a computed repetition `{expr}` prints its expression (covered by the
+        # bounded round trip: specs computed_bound / computed_rep*)
+        n.fields["bounds_constraint"] = None
     return n
 
 
